@@ -199,6 +199,8 @@ func (s *orRuleSetLoader) makeTypeFromRuleSet(lex lexeme.LexEvent) {
 	declaredType := ""
 	if typeConstraint != nil {
 		declaredType = typeConstraint.(constraint.BytesKeeper).Bytes().Unquote().String()
+	} else {
+		s.setJsonTypeByRules()
 	}
 
 	CompileBasic(&typ, false)
@@ -223,12 +225,7 @@ func (s *orRuleSetLoader) checkCompatibilityOfConstraints(declaredType string) {
 		tt = []json.Type{s.typeRoot.Type()}
 	}
 	err := s.typeRoot.ConstraintMap().Each(func(_ constraint.Type, v constraint.Constraint) error {
-		rest := make([]json.Type, 0, len(tt))
-		for _, t := range tt {
-			if v.IsJsonTypeCompatible(t) {
-				rest = append(rest, t)
-			}
-		}
+		rest := compatibleJsonTypes(tt, v)
 		if len(rest) == 0 {
 			return errors.Format(errors.ErrUnexpectedConstraint, v.Type().String(), tt[0].String())
 		}
@@ -238,6 +235,46 @@ func (s *orRuleSetLoader) checkCompatibilityOfConstraints(declaredType string) {
 	if err != nil {
 		panic(err)
 	}
+}
+
+// compatibleJsonTypes returns those of the JSON types with which the rule can be
+// used.
+func compatibleJsonTypes(tt []json.Type, v constraint.Constraint) []json.Type {
+	rest := make([]json.Type, 0, len(tt))
+	for _, t := range tt {
+		if v.IsJsonTypeCompatible(t) {
+			rest = append(rest, t)
+		}
+	}
+	return rest
+}
+
+// setJsonTypeByRules gives a rule-set without the "type" rule the JSON type its
+// rules leave. The node is made with the JSON type of the outer example, but
+// the example may belong to another alternative: in
+// `true // {or: [{minLength: 2}, {type: "boolean"}]}` the rule-set describes a
+// string. When several types are left (`min` goes with integer and float), the
+// one of the example is kept if it is among them, otherwise it is the first of
+// them, and float rather than integer: it admits the integers too.
+func (s *orRuleSetLoader) setJsonTypeByRules() {
+	tt := json.AllTypes
+	s.typeRoot.ConstraintMap().EachSafe(func(_ constraint.Type, v constraint.Constraint) {
+		tt = compatibleJsonTypes(tt, v)
+	})
+	if len(tt) == 0 {
+		return // checkCompatibilityOfConstraints reports it
+	}
+
+	t := tt[0]
+	for _, x := range tt {
+		if x == s.typeRoot.Type() {
+			return
+		}
+		if x == json.TypeFloat {
+			t = x
+		}
+	}
+	s.typeRoot.SetJsonType(t)
 }
 
 func (s *orRuleSetLoader) makeTypeASTNode(
